@@ -10,6 +10,7 @@ in a closed flow no path ends because of a structural fault.
 import Rpft.Flow
 import Rpft.Lemmas.Compile
 import Rpft.CompileRender
+import Rpft.Lemmas.CompileFinalA
 set_option linter.unusedSimpArgs false
 set_option linter.unusedVariables false
 namespace Rpft.Props.C01
@@ -167,6 +168,23 @@ theorem rendered_node_shape (n : Compile.NodeM) :
                 Compile.renderCat, List.map_map, Function.comp]
       · intro h
         simp [Compile.renderNode, hn] at h
+
+/-- **Cases resolve, for ALL event sequences**: whatever rows, groups and inserted blocks the
+parser is fed, if the compiler model succeeds then every case of every router of the emitted flow
+names a category of that same router (invariant `CaseCatsOk` of the machine, by induction over
+the event sequence; no hypothesis on the sheet). -/
+theorem compile_cases_resolve (noArgs testTypes : List Str) (evs : List Compile.Event) (out : Compile.Out)
+    (h : Compile.compile noArgs testTypes evs = .ok out) :
+    ∀ n ∈ (Compile.renderOut out).nodes, ∀ r, n.router = some r →
+      ∀ k ∈ r.cases, k.catUuid ∈ r.cats.map (·.uuid) := by
+  obtain ⟨s, hr, _, ho⟩ := Compile.compile_ok h
+  intro n hn
+  simp only [Compile.renderOut, List.mem_map] at hn
+  obtain ⟨m, hm, rfl⟩ := hn
+  rw [ho] at hm
+  obtain ⟨i, hi⟩ := Compile.out_nodes_arena hm
+  have a := Compile.final_ainv False (fun hf => hf.elim) hr
+  exact Compile.rendered_cases_ok (a.ok i m hi).cases
 
 /-! ### non-vacuity and negative witnesses -/
 
